@@ -233,3 +233,54 @@ Proof.
   pose proof (objs_run ops new_plot) as O. simpl in O.
   rewrite R, O. split; reflexivity.
 Qed.
+
+(** * Independence of plots *)
+Lemma update_length : forall A i (f : A -> A) l, List.length (update i f l) = List.length l.
+Proof. intros A i f l. revert i. induction l as [|x r IH]; intros [|j]; simpl; auto. Qed.
+
+Lemma nth_update_same : forall A i (f : A -> A) l d, (i < List.length l)%nat -> nth i (update i f l) d = f (nth i l d).
+Proof.
+  intros A i f l. revert i. induction l as [|x r IH]; intros [|j] d H; simpl in *; try lia; auto.
+  apply IH. lia.
+Qed.
+
+Lemma nth_update_other : forall A i j (f : A -> A) l d, i <> j -> nth i (update j f l) d = nth i l d.
+Proof.
+  intros A i j f l. revert i j. induction l as [|x r IH]; intros [|i] [|j] d H; simpl; auto; try congruence.
+Qed.
+
+Lemma srun_length : forall steps sts, List.length (srun steps sts) = List.length sts.
+Proof.
+  induction steps as [|s steps IH]; intros sts; simpl; [reflexivity|].
+  rewrite IH. apply update_length.
+Qed.
+
+(** the state of plot i after a session is the state a lone plot reaches by the calls made on i *)
+Lemma session_projection : forall steps sts i d, (i < List.length sts)%nat ->
+  nth i (srun steps sts) d = prun (calls_on i steps) (nth i sts d).
+Proof.
+  induction steps as [|[j x] steps IH]; intros sts i d H; simpl; [reflexivity|].
+  rewrite IH by (unfold sstep; rewrite update_length; exact H).
+  unfold calls_on. simpl. destruct (Nat.eqb j i) eqn:E.
+  - apply Nat.eqb_eq in E. subst j. simpl. unfold sstep. simpl. rewrite nth_update_same by exact H. reflexivity.
+  - apply Nat.eqb_neq in E. unfold sstep. simpl. rewrite nth_update_other by congruence. reflexivity.
+Qed.
+
+Lemma calls_on_wf : forall i steps, Forall (fun s => wf_op (snd s)) steps -> Forall wf_op (calls_on i steps).
+Proof.
+  intros i steps F. unfold calls_on. induction F as [|s steps Hs F IH]; simpl; [constructor|].
+  destruct (Nat.eqb (fst s) i); simpl; [constructor; assumption|assumption].
+Qed.
+
+Theorem sessions_lemma : forall k steps i, (i < k)%nat -> Forall (fun s => wf_op (snd s)) steps ->
+  let st := nth i (srun steps (repeat new_plot k)) new_plot in
+  st = prun (calls_on i steps) new_plot /\
+  ps_last (pstep st Render) = Some (savefig (ps_cfg st) (added (calls_on i steps))) /\
+  objs_of (ps_slots st) = added (calls_on i steps).
+Proof.
+  intros k steps i H F. cbv zeta.
+  assert (P : nth i (srun steps (repeat new_plot k)) new_plot = prun (calls_on i steps) new_plot).
+  { rewrite session_projection by (rewrite repeat_length; exact H).
+    f_equal. apply nth_repeat. }
+  rewrite P. split; [reflexivity|]. apply history_lemma. apply calls_on_wf. exact F.
+Qed.
